@@ -65,7 +65,7 @@ type pgB struct {
 }
 
 type queueB struct {
-	Parent int           `json:"parent"` // -1 = top level
+	Parent int            `json:"parent"` // -1 = top level
 	Status v2.QueueStatus `json:"status"`
 }
 
@@ -75,14 +75,6 @@ type stateB struct {
 }
 
 func qName(i int) string { return "q" + strconv.Itoa(i) }
-
-func (s *stateB) clone() *stateB {
-	c := &stateB{PGs: append([]pgB{}, s.PGs...)}
-	for _, q := range s.Queues {
-		c.Queues = append(c.Queues, queueB{Parent: q.Parent, Status: *q.Status.DeepCopy()})
-	}
-	return c
-}
 
 func qsCanon(st *v2.QueueStatus) string {
 	return "A[" + rlCanon(st.Allocated) + "]N[" + rlCanon(st.AllocatedNonPreemptible) + "]R[" + rlCanon(st.Requested) + "]C[" + strings.Join(st.ChildQueues, ",") + "]"
@@ -143,8 +135,7 @@ func snapshotB(c client.Client, nQueues int) (*stateB, error) {
 			}
 			p = v
 		}
-		st := *q.Status.DeepCopy()
-		s.Queues = append(s.Queues, queueB{Parent: p, Status: st})
+		s.Queues = append(s.Queues, queueB{Parent: p, Status: *q.Status.DeepCopy()})
 	}
 	pgs := &v2alpha2.PodGroupList{}
 	if err := c.List(ctx, pgs, client.InNamespace(nsB)); err != nil {
@@ -316,17 +307,49 @@ type stepB struct {
 	Calls []string
 	Err   string
 	Real  bool
+	// Executed is false when this (state, reconcile) pair had already been executed (memo).
+	Executed bool
+}
+
+// recMemoB: one real reconcile per distinct (store state, queue) pair: a reconcile is a
+// deterministic function of the store (the determinism replays re-execute a fixed fraction on a
+// fresh store and compare). Both the reconcile(q) history event and the fixpoint walk use it.
+type recResB struct {
+	next  *stateB
+	err   string
+	calls []string
+}
+
+var recMemoB = map[string]*recResB{}
+
+func reconcileMemoB(s *stateB, qi int) (r *recResB, executed bool, err error) {
+	k := s.key() + "#" + strconv.Itoa(qi)
+	if r, ok := recMemoB[k]; ok {
+		return r, false, nil
+	}
+	log := &callLog{}
+	counted, raw := newStatusClient(s.objects(), log)
+	r = &recResB{err: reconcileQueue(counted, qName(qi))}
+	r.calls = append([]string{}, log.calls...)
+	if r.next, err = snapshotB(raw, len(s.Queues)); err != nil {
+		return nil, true, err
+	}
+	recMemoB[k] = r
+	return r, true, nil
 }
 
 func applyB(s *stateB, e eventB) (*stepB, error) {
-	log := &callLog{}
-	counted, raw := newStatusClient(s.objects(), log)
 	res := &stepB{}
+	if e.Op == "reconcile" {
+		r, executed, err := reconcileMemoB(s, e.I)
+		if err != nil {
+			return nil, err
+		}
+		res.Real, res.Executed, res.Err, res.Calls, res.Next = true, executed, r.err, r.calls, r.next
+		return res, nil
+	}
+	_, raw := newStatusClient(s.objects(), nil)
 	switch e.Op {
-	case "reconcile":
-		res.Real = true
-		res.Err = reconcileQueue(counted, qName(e.I))
-		res.Calls = append([]string{}, log.calls...)
 	case "set-status":
 		g := &v2alpha2.PodGroup{}
 		if err := raw.Get(ctx, types.NamespacedName{Namespace: nsB, Name: "g" + strconv.Itoa(e.I)}, g); err != nil {
@@ -378,7 +401,7 @@ func applyB(s *stateB, e eventB) (*stepB, error) {
 type fixB struct {
 	Final      *stateB
 	Rounds     int
-	Reconciles int
+	Reconciles int // reconciles actually executed (not served by the memo)
 	Converged  bool
 	Cycle      bool // a state repeated without reaching a fixpoint
 	BoundHit   bool
@@ -387,35 +410,36 @@ type fixB struct {
 }
 
 // fixpointB reconciles every queue, round after round, in the given order, until a whole round
-// changes nothing. order: queue indexes (the harness uses parent-first AND child-first orders).
+// changes nothing. A reconcile of queue q can only write q's own status (checked: ExtraCalls), so
+// a change-free round means every single reconcile of it left every object unchanged - that
+// last round IS the "one more reconcile of anything changes nothing" check.
 func fixpointB(s *stateB, order []int, maxRounds int) (*fixB, error) {
 	f := &fixB{}
-	log := &callLog{}
-	counted, raw := newStatusClient(s.objects(), log)
 	cur := s
 	seen := map[string]bool{cur.key(): true}
 	for r := 0; r < maxRounds; r++ {
 		f.Rounds++
 		startKey := cur.key()
 		for _, qi := range order {
-			log.reset()
-			if e := reconcileQueue(counted, qName(qi)); e != "" {
-				f.Err = e
+			res, executed, err := reconcileMemoB(cur, qi)
+			if err != nil {
+				return nil, err
+			}
+			if executed {
+				f.Reconciles++
+			}
+			if res.err != "" {
+				f.Err = res.err
 				f.Final = cur
 				return f, nil
 			}
-			f.Reconciles++
-			for _, cl := range log.calls {
+			for _, cl := range res.calls {
 				if cl != "patch Queue/status /"+qName(qi) {
 					f.ExtraCalls = append(f.ExtraCalls, cl)
 				}
 			}
+			cur = res.next
 		}
-		next, err := snapshotB(raw, len(s.Queues))
-		if err != nil {
-			return nil, err
-		}
-		cur = next
 		if cur.key() == startKey {
 			f.Converged = true
 			break
@@ -430,9 +454,6 @@ func fixpointB(s *stateB, order []int, maxRounds int) (*fixB, error) {
 	if !f.Converged && !f.Cycle {
 		f.BoundHit = true
 	}
-	// The last, change-free round IS the "one more reconcile of every object leaves everything
-	// unchanged" check (each of its reconciles is compared below, object by object, by the caller's
-	// snapshot equality of the whole round).
 	return f, nil
 }
 
